@@ -490,6 +490,16 @@ def first_diff(exp, got):
     return f"expected …{exp[lo:i + 60]}… got …{got[lo:i + 60]}…"
 
 
+class ResolveWitnesses(ResolveStream):
+    """the corpus families of the `resolve` stream only (no random cases, no open finding class): included
+    by the checks of properties that quantify over schemas WITH value references and imports (C06, C09, C15)
+    — a resolver that substitutes a wrong bound breaks them as well"""
+    name = "resolve-corpus"
+
+    def gen(self, rng, tier):
+        return [r for r in self.witnesses() if " quirk:" not in r and not r.rsplit(" ", 1)[1].startswith("quirk")]
+
+
 class Spec(runner.Spec):
     prop = "C12"
     streams = [ResolveStream()]
